@@ -159,6 +159,18 @@ def d_shift(dx, dy, dz):
     return f
 
 
+def d_legacy_names(scope):
+    """Atom names of the pre-2008 PDB style (O3* for O3', O1P for OP1, C5M for C7): names are reported as written by every reader and format."""
+    def f(t):
+        for a in t:
+            if scope == "all" or (a["chain"] == "A" and a["resseq"] in (3, 4)):
+                nm = a["name"].replace("'", "*")
+                nm = {"OP1": "O1P", "OP2": "O2P", "OP3": "O3P", "C7": "C5M"}.get(nm, nm)
+                a["name"] = nm
+    f.__name__ = "legacy-names-%s" % scope
+    return f
+
+
 def d_reverse(t):
     out = []
     for _, atoms in corpus.residues(t):
@@ -193,6 +205,7 @@ def deviations():
     d += [d_boundary_twin, d_hetatm_serial]
     # coordinates that fill the 8-character PDB fields completely (<= -100.000, >= 1000.000)
     d += [d_shift(-250.0, -250.0, -250.0), d_shift(1500.0, 0.0, -180.0), d_shift(0.0, 2000.0, 0.0)]
+    d += [d_legacy_names("all"), d_legacy_names("A3-A4")]
     return d
 
 
